@@ -1411,6 +1411,10 @@ M('C06', 'LegCharge.sort scatters the block sizes (round-5 seed a)', CH,
   "        block_sizes = self.get_block_sizes()\n        cp._set_block_sizes(block_sizes[perm_qind])", "        block_sizes = np.empty(self.block_number, dtype=np.intp)\n        block_sizes[perm_qind] = self.get_block_sizes()\n        cp._set_block_sizes(block_sizes)",
   'PERM-mixed-direction')
 
+M('C06', "combine_legs (single block) reshapes with order='A' (round-5 seed b)", NPC,
+  "            res_block_view[:] = self._data[0].reshape(res_block_view.shape)", "            res_block_view[:] = self._data[0].reshape(res_block_view.shape, order='A')",
+  'RESHAPE-C-order')
+
 # ---------------------------------------------------------------- C16 / C19
 M('C16', 'GMRES restart: relative residual norm used for normalisation (round-3 seed b)', KRY,
   """        self.total_error.append([npc.norm(self.rs[-1]) / self.b_norm])
